@@ -663,7 +663,7 @@ impl Family for C14 {
                 },
             }
         } else {
-            let word = [Wd::U16, Wd::U32, Wd::U64, Wd::U128][((index / 8) % 4) as usize];
+            let word = [Wd::U8, Wd::U16, Wd::U32, Wd::U64, Wd::U128][((index / 8) % 5) as usize];
             let mut pre = Vec::new();
             let mut left = rng.usize_range(0, 2 * word.bits() + 1);
             while left > 0 {
@@ -755,6 +755,8 @@ impl Family for C14 {
                     };
                 }
                 match (s.e, word) {
+                    (En::BE, Wd::U8) => wc!(BE, u8),
+                    (En::LE, Wd::U8) => wc!(LE, u8),
                     (En::BE, Wd::U16) => wc!(BE, u16),
                     (En::BE, Wd::U32) => wc!(BE, u32),
                     (En::BE, Wd::U64) => wc!(BE, u64),
